@@ -2,6 +2,7 @@ package main
 
 import (
 	"fmt"
+	"sort"
 	"strings"
 
 	sdkmath "cosmossdk.io/math"
@@ -245,6 +246,9 @@ func (e *env) checkB(ctx sdk.Context, gs []ghostMsg, path []int) {
 	}
 	e.count("b_queues")
 	for caller, v := range w.Vals {
+		if caller == 2 && !r.Thorough() {
+			continue // quick tier: v2 (never an assignee) is only queried in the thorough tier
+		}
 		r.Case("")
 		nontrivial := false
 		got := map[uint64]bool{}
@@ -307,6 +311,7 @@ func keys(m map[uint64]bool) []uint64 {
 	for k := range m {
 		out = append(out, k)
 	}
+	sort.Slice(out, func(i, j int) bool { return out[i] < out[j] })
 	return out
 }
 
